@@ -120,6 +120,38 @@ def run(ck):
                   paths.get((label, nid)))
     ck.floor('C27.gate', 'effects in STORE/FETCH/STOP handlers', total_effects, 9)
 
+    # refused *with an authentication error*: nothing that can throw on request input runs before the token decision
+    # (an exception there would end the request without the authentication reply)
+    from sa.escape import Escape
+    E = Escape(P)
+    n_thr = 0
+    for cmd in GATED_COMMANDS:
+        fn = P.fn(table[cmd])
+        thr = []
+        for i in fn.walk():
+            if fn.nodes[i].get('callee') and E.call_types(fn, i):
+                # inside a try block of the handler that catches it: harmless
+                if not E.escape_of_subtree(fn, i):
+                    continue
+                caught = False
+                for a in fn.ancestors(i):
+                    an = fn.nodes[a]
+                    if an['k'] == 'CXXTryStmt' and fn.is_in(i, an['try']):
+                        caught = True
+                if not caught:
+                    thr.append(('throwing call ' + fn.nodes[i]['callee'].split('::')[-1], i))
+        n_thr += len(thr)
+        if thr:
+            fails, _ = gate_check(fn, thr, [('token', token_gate(fn))])
+            for e, _g, nid, pth, _c in fails:
+                ck.ob('C27.early', 'C27.early/%s/%s' % (fn.name.split('::')[-1], e), False, fn.loc(nid),
+                      '%s can throw on request input before the token was checked: an unauthenticated request is then dropped '
+                      'without the authentication error' % e, pth)
+            if not fails:
+                ck.ob('C27.early', 'C27.early/%s' % fn.name.split('::')[-1], True, fn.loc(),
+                      'every input-dependent throwing call of %s runs only after the token gate (%d call(s))' % (fn.name, len(thr)))
+    ck.floor('C27.early', 'input-dependent throwing calls in gated handlers', n_thr, 1)
+
     # R-CMP: the comparison is exact and length-checked
     cte = P.fn(CTE)
     ck.touch(cte)
